@@ -162,6 +162,18 @@ class Origins:
             base = self.of_operand_d(a0, depth)
             if n == "next" and base[0] in ("arg", "args"):
                 return ("arg", "*")
+            if base == ("args",) and n in ("first", "get", "get_unchecked", "last"):
+                # args.first() / args.get(k): the same argument as args[0] / args[k]
+                if n == "first":
+                    return ("arg", 0)
+                if n == "last":
+                    return ("arg", "?")
+                c = None
+                if len(t["args"]) > 1:
+                    c = sem.const_int(t["args"][1])
+                    if c is None and op_local(t["args"][1]) is not None:
+                        c = self.const_of(op_local(t["args"][1]))
+                return ("arg", c if c is not None else "?")
             return ("elem", base)
         if n in ("pop", "peek") and f.startswith("laythe_vm::fiber::Fiber::"):
             return ("stack", n)
